@@ -131,6 +131,8 @@ func C07(run *hx.Run) {
 		{"truncate", "small-insert-immediate", 4096, false, false},
 		{"persist", "update-many", 512, true, false},
 		{"delete", "pending", 1024, false, true},
+		{"delete", "small-insert+nosync", 1024, false, false},
+		{"persist", "spill-insert+nosync", 512, false, false},
 	}
 	if run.Thorough() {
 		for _, jm := range []string{"delete", "truncate", "persist"} {
@@ -140,6 +142,7 @@ func C07(run *hx.Run) {
 				}
 			}
 			scs = append(scs, c07Scenario{jm, "pending", 4096, false, true})
+			scs = append(scs, c07Scenario{jm, "small-insert+nosync", 1024, false, false}, c07Scenario{jm, "two-statements+nosync", 512, false, false})
 		}
 	}
 	dir, cleanup := hx.ScratchDir("C07")
@@ -256,6 +259,9 @@ func c07Run(run *hx.Run, o, o2 *hx.Oracle, sdir string, idx int, sc c07Scenario)
 			} else {
 				journal = "empty-journal"
 			}
+		}
+		if journal == "journal-on-disk" {
+			journal = "journal-" + journalClass(path+"-journal")
 		}
 		run.See("writer_lock_state", ws.String())
 		run.See("frozen_point_class", ws.String()+"/"+journal)
